@@ -5,6 +5,7 @@ import (
 	"go/constant"
 	"go/token"
 	"go/types"
+	"sort"
 	"strings"
 
 	"golang.org/x/tools/go/ssa"
@@ -492,6 +493,19 @@ func dependsOn(v ssa.Value, pred func(ssa.Value) bool) bool {
 				return true
 			}
 		}
+		// a block moved into an unexported helper of the same package: continue in what the helper returns
+		if call, ok := v.(*ssa.Call); ok {
+			if g := localHelperOf(call); g != nil {
+				bindHelperArgs(call, g)
+				for _, ret := range returnsOf(g) {
+					for _, res := range ret.Results {
+						if rec(res) {
+							return true
+						}
+					}
+				}
+			}
+		}
 		// local aggregates (composite literals, variadic backing arrays): what was stored into them
 		if a, ok := v.(*ssa.Alloc); ok {
 			for _, r := range *a.Referrers() {
@@ -589,4 +603,191 @@ func blockInLoop(b *ssa.BasicBlock) bool {
 		}
 	}
 	return false
+}
+
+// ---- same-package helpers: rules that look inside one method also look inside the unexported helpers it calls, and
+// carry values across the call boundary (a helper's parameter stands for the argument of the call site it was
+// entered through).
+
+var helperArg = map[*ssa.Parameter]ssa.Value{}
+
+func localHelperOf(call *ssa.Call) *ssa.Function {
+	if call == nil || call.Call.IsInvoke() || call.Parent() == nil {
+		return nil
+	}
+	g := call.Call.StaticCallee()
+	if !isLocalHelper(call.Parent(), g) || g == call.Parent() {
+		return nil
+	}
+	return g
+}
+
+func bindHelperArgs(call *ssa.Call, g *ssa.Function) {
+	for i, p := range g.Params {
+		if i < len(call.Call.Args) {
+			helperArg[p] = call.Call.Args[i]
+		}
+	}
+}
+
+// callerVal: a helper parameter is replaced by the argument it was bound to (repeatedly).
+func callerVal(v ssa.Value) ssa.Value {
+	for i := 0; i < 4; i++ {
+		p, ok := stripConv(v).(*ssa.Parameter)
+		if !ok {
+			return v
+		}
+		a, bound := helperArg[p]
+		if !bound {
+			return v
+		}
+		v = a
+	}
+	return v
+}
+
+// regionOf: fn and the unexported same-package helpers it calls (two levels), each bound to its (last) call site.
+func regionOf(fn *ssa.Function) []*ssa.Function {
+	out := []*ssa.Function{fn}
+	seen := map[*ssa.Function]bool{fn: true}
+	var rec func(f *ssa.Function, d int)
+	rec = func(f *ssa.Function, d int) {
+		if d == 0 {
+			return
+		}
+		allInstrs(f, func(in ssa.Instruction) {
+			call, ok := in.(*ssa.Call)
+			if !ok {
+				return
+			}
+			g := localHelperOf(call)
+			if g == nil || seen[g] {
+				return
+			}
+			seen[g] = true
+			bindHelperArgs(call, g)
+			out = append(out, g)
+			rec(g, d-1)
+		})
+	}
+	rec(fn, 2)
+	return out
+}
+
+// callsNamedR: calls to a function/method of that name anywhere in the region of fn.
+func callsNamedR(fn *ssa.Function, name string) []*ssa.Call {
+	var out []*ssa.Call
+	for _, f := range regionOf(fn) {
+		out = append(out, callsNamed(f, name)...)
+	}
+	return out
+}
+
+// paramFieldsUp: the labels of v in the vocabulary of the function whose region v's function belongs to: labels rooted
+// in a bound helper parameter are replaced by the labels of the argument at the call site.
+func paramFieldsUp(v ssa.Value) []string {
+	owner := valueParent(v)
+	if owner == nil {
+		return nil
+	}
+	ls := paramFields(owner, v)
+	for depth := 0; depth < 3; depth++ {
+		changed := false
+		for i, p := range owner.Params {
+			a, bound := helperArg[p]
+			pl := paramLabel(owner, i)
+			if !bound || pl == "" || valueParent(a) == nil {
+				continue
+			}
+			if pl == "recv" {
+				continue
+			}
+			to := paramFields(valueParent(a), a)
+			var next []string
+			for _, l := range ls {
+				if !mentionsToken(l, pl) || len(to) == 0 {
+					next = append(next, l)
+					continue
+				}
+				changed = true
+				for _, t := range to {
+					next = append(next, replaceToken(l, pl, t))
+				}
+			}
+			ls = next
+		}
+		if !changed {
+			break
+		}
+		// one more level up if the caller is itself a bound helper
+		var up *ssa.Function
+		for _, p := range owner.Params {
+			if a, bound := helperArg[p]; bound && valueParent(a) != nil {
+				up = valueParent(a)
+			}
+		}
+		if up == nil || up == owner {
+			break
+		}
+		owner = up
+	}
+	sort.Strings(ls)
+	return ls
+}
+
+func valueParent(v ssa.Value) *ssa.Function {
+	switch x := v.(type) {
+	case *ssa.Parameter:
+		return x.Parent()
+	case *ssa.FreeVar:
+		return x.Parent()
+	case ssa.Instruction:
+		return x.Parent()
+	}
+	return nil
+}
+
+// resultThroughHelpers: a value that is the result of an unexported same-package helper is replaced by what the helper
+// returns at that position, when all its returns agree (`return polynomial.Sum(ps)` moved into a helper).
+func resultThroughHelpers(v ssa.Value) ssa.Value {
+	for i := 0; i < 3; i++ {
+		var call *ssa.Call
+		idx := 0
+		switch x := v.(type) {
+		case *ssa.Extract:
+			c, ok := x.Tuple.(*ssa.Call)
+			if !ok {
+				return v
+			}
+			call, idx = c, x.Index
+		case *ssa.Call:
+			call = x
+		default:
+			return v
+		}
+		g := localHelperOf(call)
+		if g == nil {
+			return v
+		}
+		bindHelperArgs(call, g)
+		var res ssa.Value
+		for _, ret := range returnsOf(g) {
+			if idx >= len(ret.Results) {
+				return v
+			}
+			rv := resolveLoad(ret.Results[idx])
+			if isNilConst(rv) {
+				continue
+			}
+			if res != nil && res != rv {
+				return v
+			}
+			res = rv
+		}
+		if res == nil {
+			return v
+		}
+		v = res
+	}
+	return v
 }
